@@ -368,7 +368,7 @@ func mutateOnce(r *core.Rand, t *tree.Tree, o editOpt) string {
 			return ""
 		}
 		p := e.Path
-		mj, mn := e.Major+1, e.Minor+7
+		mj, mn := 1+(e.Major+1)%4000, (e.Minor+7)%(1<<20) // Linux: 12-bit major, 20-bit minor
 		applyGroup(t, p, func(x *tree.Entry) { x.Major, x.Minor = mj, mn })
 		return "renumber " + p
 	case "retarget":
